@@ -50,7 +50,7 @@ def find(node: ast.AST, typ, pred: Callable[[ast.AST], bool] = None, nested: boo
         if isinstance(n, typ) and (pred is None or pred(n)):
             out.append(n)
         for c in ast.iter_child_nodes(n):
-            if not nested and not first and isinstance(c, (ast.FunctionDef, ast.Lambda, ast.ClassDef)):
+            if not nested and isinstance(c, (ast.FunctionDef, ast.AsyncFunctionDef, ast.Lambda, ast.ClassDef)):
                 continue
             stack.append(c)
         first = False
